@@ -279,6 +279,9 @@ thread_local! {
 pub static EAGER: std::sync::atomic::AtomicBool = std::sync::atomic::AtomicBool::new(false);
 /// progress beacon for the hang watchdog: (history index << 8) | phase
 pub static BEACON: std::sync::atomic::AtomicU64 = std::sync::atomic::AtomicU64::new(0);
+pub fn beacon_get_phase() -> u8 {
+    (BEACON.load(std::sync::atomic::Ordering::Relaxed) & 0xff) as u8
+}
 pub fn beacon_phase(phase: u8) {
     let b = BEACON.load(std::sync::atomic::Ordering::Relaxed);
     BEACON.store((b & !0xff) | phase as u64, std::sync::atomic::Ordering::Relaxed);
@@ -351,7 +354,9 @@ impl World {
 
     pub fn violation(&self, prop: &'static str, rule: &'static str, detail: String) {
         let mut v = self.viol.borrow_mut();
-        if EAGER.load(std::sync::atomic::Ordering::Relaxed) && v.len() < 4 {
+        let armed_now = self.armed.get();
+        let mine_now = v.iter().filter(|x| x.prop == armed_now).count();
+        if EAGER.load(std::sync::atomic::Ordering::Relaxed) && ((prop == armed_now && mine_now < 3) || (prop != armed_now && v.len() - mine_now < 3)) {
             // flushed at once: if the crate hangs or crashes later in this history, the
             // orchestrator still learns what the monitors had already seen
             use std::io::Write;
@@ -771,7 +776,15 @@ impl World {
         bump(&self.stats.waker_drops);
         self.event(ev::WAKER_DROP, owner as u64, 0);
         let _g = enter_crate();
+        // (the last waker frees the block, which drains the ready queue: a crate call that can hang)
+        let ph = beacon_get_phase();
+        if ph == 0 {
+            beacon_phase(4);
+        }
         drop(wk);
+        if ph == 0 {
+            beacon_phase(0);
+        }
     }
 
     fn note_wake(&self, key: usize, owner: u32, how: u8) {
